@@ -118,6 +118,9 @@ func runChat(r *Run, ackFocus bool) {
 		case "modify-forward":
 			e.SetCommand(op.newText)
 			e.SetForward(true)
+		case "deny-forward": // two subscribers: one forwards, one denies; denied wins
+			e.SetForward(true)
+			e.SetAllowed(false)
 		}
 	})
 
@@ -162,7 +165,7 @@ func runChat(r *Run, ackFocus bool) {
 				// keep lines unique so that each is attributable
 				op.text = strings.TrimSpace(op.text + fmt.Sprintf(" u%d", i))
 			}
-			op.outcome = []string{"allow", "allow", "allow", "deny", "forward", "modify", "modify-forward"}[r.W.Pick(7)]
+			op.outcome = []string{"allow", "allow", "allow", "deny", "forward", "modify", "modify-forward", "deny-forward"}[r.W.Pick(8)]
 			if forceKey && op.kind == "cmd-signed" {
 				op.outcome = "forward"
 			}
@@ -343,7 +346,7 @@ func runChat(r *Run, ackFocus bool) {
 			line = op.newText
 		}
 		switch op.outcome {
-		case "deny":
+		case "deny", "deny-forward":
 			fates[i] = fate{}
 		case "forward", "modify-forward":
 			fates[i] = fate{toBackend: line}
@@ -393,7 +396,7 @@ func runChat(r *Run, ackFocus bool) {
 					cls := "command-not-delivered-to-backend"
 					if countBE[line] > wantBE[line] {
 						cls = "command-reached-backend-unexpectedly"
-						if op.outcome == "deny" {
+						if strings.HasPrefix(op.outcome, "deny") {
 							cls = "denied-command-reached-backend"
 						}
 					}
